@@ -61,7 +61,7 @@ type ExportingProcess struct {
 	sendJSONRecord  bool
 	jsonBufferLen   int
 	wg              sync.WaitGroup
-	isClosed        atomic.Bool
+	closeOnce       sync.Once
 	stopCh          chan struct{}
 	// sendMutex makes numbering a message and writing it one step: the application and the
 	// template refresh goroutine (UDP) both send messages.
@@ -319,16 +319,16 @@ func (ep *ExportingProcess) CloseConnToCollector() {
 // but does not wait for the ep.wg counter to get to 0. Goroutines which need to terminate in order
 // for ep.wg to be decremented can safely call closeConnToCollector.
 func (ep *ExportingProcess) closeConnToCollector() {
-	if ep.isClosed.Swap(true) {
-		return
-	}
-	klog.Info("Closing connection to the collector")
-	close(ep.stopCh)
-	if err := ep.connToCollector.Close(); err != nil {
-		// Just log the error that happened when closing the connection. Not returning error
-		// as we do not expect library consumers to exit their programs with this error.
-		klog.Errorf("Error when closing connection to the collector: %v", err)
-	}
+	// A call which overlaps with another one returns when the connection has been closed too.
+	ep.closeOnce.Do(func() {
+		klog.Info("Closing connection to the collector")
+		close(ep.stopCh)
+		if err := ep.connToCollector.Close(); err != nil {
+			// Just log the error that happened when closing the connection. Not returning error
+			// as we do not expect library consumers to exit their programs with this error.
+			klog.Errorf("Error when closing connection to the collector: %v", err)
+		}
+	})
 }
 
 // checkConnToCollector checks whether the connection from exporter is still open
